@@ -462,6 +462,11 @@ def directed_fills(fam: str, rnd: random.Random) -> list[dict]:
                 rt = bytearray(rnd.randrange(256) for _ in range(149))
                 rt[30] = bm
                 rt[80] = gio
+                # the PV strings' mode bytes over their codes, next to non-zero voltage x current
+                rt[4] = (0, 1, 2, 3, 0xFF, 1)[(bm + gio) % 6]
+                rt[9] = (1, 0, 2, 1, 3, 0xFF)[(bm + 2 * gio) % 6]
+                rt[5:7] = (2405).to_bytes(2, "big")
+                rt[7:9] = (133).to_bytes(2, "big")
                 rt[38:40] = rnd.choice([0, 1, 89, 90, 91, 0x7FFF, 0x8000, 0xFFA6, 0xFFA5, 0xFFFF]).to_bytes(2, "big")
                 rt[0:2] = rnd.choice([5, 15, 2405, 0xFFFF, 0]).to_bytes(2, "big")
                 rt[2:4] = rnd.choice([10, 30, 133, 0xFFFF, 0]).to_bytes(2, "big")
